@@ -6,22 +6,27 @@
 # the real server (child process) with the real client channel; expected accept/refuse and the expected
 # advertised list are the specification's.
 import vf
-from _family_f import dedupe, need
+from _family_f import dedupe, need, Background
 
 
 def body(run):
     q = run.quick()
     exe = [None]
-    res = run.parallel(
+    bg = Background(
         lambda: run.tlc("Handshake", "Handshake", "Handshake_mc_quick.cfg" if q else "Handshake_mc.cfg",
-                        label="contract: all invariants", timeout=3000),
+                        label="contract: all invariants, with and without an earlier secured connection", timeout=3000),
         lambda: run.tlc("Handshake", "Handshake", "Handshake_dev_adopt.cfg", expect="violation", count=False,
                         label="deviation demo: adopting the client's policy/mode violates InvOnlyEnabled"),
         lambda: run.tlc("Handshake", "Handshake", "Handshake_dev_adv.cfg", expect="violation", count=False,
                         label="deviation demo: an endpoint for a pair that is not enabled violates InvAdvertisedExactly"),
+        lambda: run.tlc("Handshake", "Handshake", "Handshake_dev_recycled.cfg", expect="violation", count=False,
+                        label="deviation demo: channel state of an earlier secured connection leaking into a later OPN violates InvOnlyEnabled"),
+    )
+    res = run.parallel(
+        lambda: None, lambda: None, lambda: None,
         lambda: run.tlc("Handshake", "Handshake",
                         "Handshake_gen_opn_quick.cfg" if q else "Handshake_gen_opn_thorough.cfg",
-                        mode="gen", label="rows: (configuration, OPN policy, mode) -> accept/refuse; advertised lists", timeout=3000),
+                        mode="gen", count=False, label="rows: (configuration, server history, OPN policy, mode) -> accept/refuse; advertised lists", timeout=3000),
         lambda: exe.__setitem__(0, run.go_build("handshake")),
     )
     rows = dedupe(res[3].rows)
@@ -36,14 +41,18 @@ def body(run):
     results = run.go_run(exe[0], ["-prop", "C30", "-par", "4" if q else "8"], cases=rows, timeout=3000)
     need(results, rows, "opn")
     run.absorb(results)
+    bg.join()
     run.cov["behaviours_replayed"] = len(rows)
     run.cov["server_configurations"] = len({vf.json.dumps(r["cfg"], sort_keys=True) for r in rows})
     run.cov["not_driven"] = sum(1 for r in results if r.get("status") == "ok" and not r.get("nontrivial"))
-    run.cov["rule"] = ("one case per (server configuration, OPN policy, OPN mode) state of the model plus one per "
+    run.cov["rule"] = ("one case per (server configuration, server history: fresh / after an ordinary secured client "
+                       "connected and left, OPN policy, OPN mode) state of the model plus one per "
                        "configuration for the advertised list; class = policy x mode x enabled? x configuration shape; "
                        "policy/mode combinations the client library cannot express are driven with a hand-built OPN "
                        "when the policy is None and counted as not driven otherwise")
     run.assumptions += [
+        "per configuration one server process: first the requests of the fresh history (invalid policy/mode combinations before "
+        "all others), then a secured client connects, sends a request and disconnects, then every request again",
         "a channel counts as established when the client's Dial returns nil; a request on it is sent as a cross-check",
         "advertised endpoints are read over the wire (GetEndpoints) and through Server.Endpoints(), for both endpoint URLs of the "
         "listener (127.0.0.1 and localhost), at the start and at the end of every configuration's run (10 readings)",
